@@ -79,7 +79,7 @@ PROPS = {
     },
     "C15": {
         "module": "Shutter.Properties.C15",
-        "theorems": ["C15_exact", "C15_atomic", "C15_domain_canonical", "C15_domain_fork", "sync_inv", "reach_inv", "C15_sql_pinned"],
+        "theorems": ["C15_exact", "C15_atomic", "C15_domain_canonical", "C15_domain_fork", "sync_inv", "reach_inv", "C15_sql_pinned", "C15_open_finding_witness"],
         "driver": {"pkg": "./cmd/synccheck", "args": ["-prop", "C15"]},
         "facts": ["sql"],
         "trusted_base": [KERNEL, CORR,
@@ -131,7 +131,7 @@ PROPS = {
     },
     "C03": {
         "module": "Shutter.Properties.C03",
-        "theorems": ["C03_only_correct", "C03_complete", "C03_keys_delivered", "C03_agree"],
+        "theorems": ["C03_only_correct", "C03_complete", "C03_keys_delivered", "C03_agree", "C03_own_trigger_no_key", "C03_open_finding_witness"],
         "driver": {"pkg": "./cmd/netcheck"},
         "trusted_base": [KERNEL + " (these theorems use Mathlib through C01: Mathlib.LinearAlgebra.Lagrange)", CORR,
                          "noderig: n real handler stacks per flavour (core handlers, flavour handlers, flavour middleware) over pgfake + "
